@@ -200,6 +200,12 @@ pub fn build_corpus(net: &str) -> (Vec<Op>, Universe) {
         calls.push((pre::PC_LASTSAT, pre::get_last_sat_location(&chain.txs[0].txid_b32, 0, 5)));
         calls.push((pre::PC_BIP322, pre::bip322_verify(&hex::decode("00142b05d564e6a7a33c087f16e0f730d1440123799d").unwrap(), b"Hello World", &[0u8; 8])));
         let pk = w.pks[0].clone();
+        // explicit context probe (NUMBER, TIMESTAMP, PREVRANDAO, CHAINID, BLOCKHASH, txid helper ...)
+        {
+            let data = asm::tool_call(asm::OP_PROBE, &[asm::word_u64(0x1000), asm::word_u64(1), asm::word_u64(2)], &[]);
+            let ctx = Ctx { ts: blk.0, hash: blk.1.clone(), idx: d.ntx };
+            d.exec(Op::Call { pk: pk.clone(), target: Target::Addr(tool.clone()), data: Some(hist::hx(&data)), enc: Enc::Hex, ctx, iid: w.iid(), len: 1_000_000, txid: w.txid() });
+        }
         for (i, (addr, input)) in calls.into_iter().enumerate() {
             let data = asm::tool_call(if i % 2 == 0 { asm::OP_CALL } else { asm::OP_STATIC }, &[asm::word_u64(addr)], &input);
             let ctx = Ctx { ts: blk.0, hash: blk.1.clone(), idx: d.ntx };
@@ -227,7 +233,10 @@ pub fn build_corpus(net: &str) -> (Vec<Op>, Universe) {
     grow(&mut w, &mut d, 3, CommitPolicy::Never, &mut rng);
     // digests: replay on a second directory with Obs at each boundary (the universe is known now)
     let ops: Vec<Op> = d.log.iter().map(|(o, _)| o.clone()).collect();
-    let u = universe(&[&d.log], d.height.max(0) as u64, Some(&w));
+    let mut u = universe(&[&d.log], d.height.max(0) as u64, Some(&w));
+    for k in 0..15u64 {
+        u.add_slot_u64(0x1000 + k);
+    }
     drop_driver(d);
     (ops, u)
 }
